@@ -1,26 +1,16 @@
 From Coq Require Import Sorting.Sorted Permutation.
-From TxV Require Import Core.Base Gen.SrcResolve Model.Resolve.
+From TxV Require Import Core.Base Gen.SrcResolve Model.Resolve Proofs.ResolveOrderProofs Proofs.ResolveRetryProofs.
 
 (* ================================================================ the facts read from textx/model.py
    (Gen/SrcResolve.v).  Every theorem below is proved for the model instantiated with the
    generated constants; when one of them changes, the corresponding lemma here stops
    compiling and the theorems that need it are no longer established. *)
-Lemma fact_list_store : list_store_by_position = true. Proof. reflexivity. Qed.
-Lemma fact_requeue : postponed_requeued_at_front = false. Proof. reflexivity. Qed.
-Lemma fact_report : postponed_reported_at_front = false. Proof. reflexivity. Qed.
 Lemma fact_count_list : counts_list_resolution = true. Proof. reflexivity. Qed.
 Lemma fact_count_scalar : counts_scalar_resolution = true. Proof. reflexivity. Qed.
 Lemma fact_loop : loop_condition = [(true, 0); (false, 0)]. Proof. reflexivity. Qed.
-Lemma fact_error : error_condition = (true, 0). Proof. reflexivity. Qed.
 
-Lemma store_list_eq p t l : store_list p t l = insert_pos p t l.
-Proof. unfold store_list. rewrite fact_list_store. reflexivity. Qed.
 Lemma counted_one x : counted x = 1.
 Proof. unfold counted. rewrite fact_count_list, fact_count_scalar. destruct (xmany x); reflexivity. Qed.
-Lemma carry_requeue x d : carry postponed_requeued_at_front x d = x :: d.
-Proof. unfold carry. rewrite fact_requeue. reflexivity. Qed.
-Lemma carry_report x d : carry postponed_reported_at_front x d = x :: d.
-Proof. unfold carry. rewrite fact_report. reflexivity. Qed.
 Lemma cond_eq u c : forallb (holds u c) loop_condition = (Nat.ltb 0 u && Nat.ltb 0 c)%bool.
 Proof. rewrite fact_loop. cbn [forallb holds fst snd]. rewrite andb_true_r. reflexivity. Qed.
 Lemma err_eq u c : holds u c error_condition = Nat.ltb 0 u.
@@ -108,11 +98,6 @@ Proof. apply loop_eq. Qed.
 
 (* a Postponed reference keeps its place: the new pending list is the delayed list and both are
    the not-yet-resolved references in their textual order *)
-Inductive sub {A} : list A -> list A -> Prop :=
-| sub_nil : sub [] []
-| sub_keep x l l' : sub l l' -> sub (x :: l) (x :: l')
-| sub_drop x l l' : sub l l' -> sub l (x :: l').
-
 Lemma cstep_sub ans : forall pend st st' d c, cstep ans pend st = Some (st', d, c) -> sub d pend.
 Proof.
   induction pend as [|x r IH]; intros st st' d c H; cbn [cstep] in H.
@@ -182,266 +167,20 @@ Qed.
 Theorem cload_terminates ans models : cload ans models <> OutOfFuel.
 Proof. unfold cload. apply loop_fuel. lia. Qed.
 
-(* ================================================================ C08: list attributes keep textual order *)
-Section Order.
-  Variable all : list xref.
-  Hypothesis ids_unique : NoDup (map xid all).
-  Definition inslot (s : nat) (x : xref) : bool := (Nat.eqb (xslot x) s && xmany x)%bool.
-  Hypothesis slots_sorted : forall s, StronglySorted lt (map xpos (filter (inslot s) all)).
-
-  Definition resolved (st : state) (x : xref) : bool := is_some (tgt st (xid x)).
-  Definition val (st : state) (x : xref) : nat := match tgt st (xid x) with Some t => t | None => 0 end.
-  Definition entry (st : state) (x : xref) : nat * nat := (xpos x, val st x).
-  Definition expected (st : state) (s : nat) : list (nat * nat) :=
-    map (entry st) (filter (fun x => (inslot s x && resolved st x)%bool) all).
-
-  Definition Inv (st : state) (pend : list xref) : Prop :=
-    (forall s, lists st s = expected st s) /\
-    (forall x, In x pend -> In x all /\ tgt st (xid x) = None) /\
-    (forall x, In x all -> tgt st (xid x) = None -> In x pend).
-
-  Lemma Inv_perm st p q : (forall x, In x p <-> In x q) -> Inv st p -> Inv st q.
-  Proof.
-    intros E [I1 [I2 I3]]. split; [exact I1|]. split.
-    - intros x Hx. apply I2. apply E. exact Hx.
-    - intros x Hx Ht. apply E. apply I3; assumption.
-  Qed.
-
-  Lemma same_id_same_ref x y : In x all -> In y all -> xid x = xid y -> x = y.
-  Proof.
-    clear slots_sorted. revert ids_unique. induction all as [|a l IH]; intros ND Hx Hy E; [destruct Hx|].
-    cbn [map] in ND. inversion ND as [|? ? Hn ND']; subst.
-    destruct Hx as [Hx|Hx], Hy as [Hy|Hy]; subst.
-    - reflexivity.
-    - exfalso. apply Hn. rewrite E. apply in_map. exact Hy.
-    - exfalso. apply Hn. rewrite <- E. apply in_map. exact Hx.
-    - apply IH; assumption.
-  Qed.
-
-  Lemma insert_front p t l : (forall q v, In (q, v) l -> p < q) -> insert_pos p t l = (p, t) :: l.
-  Proof.
-    destruct l as [|[q v] l]; intro H; [reflexivity|]. cbn [insert_pos].
-    assert (p < q) as Hpq by (apply (H q v); left; reflexivity).
-    apply Nat.ltb_lt in Hpq. rewrite Hpq. reflexivity.
-  Qed.
-
-  (* the heart of C08: inserting the newly resolved reference by position gives exactly the
-     resolved references of the slot in textual order *)
-  Lemma insert_expected st x t s :
-    In x all -> tgt st (xid x) = None -> inslot s x = true ->
-    insert_pos (xpos x) t (expected st s) = expected (store x t (bump x st)) s.
-  Proof.
-    intros Hx Hn Hs. unfold expected.
-    set (st1 := store x t (bump x st)).
-    assert (Hres : forall y, In y all -> resolved st1 y = (resolved st y || Nat.eqb (xid y) (xid x))%bool).
-    { intros y _. unfold resolved, st1. cbn [tgt store bump].
-      destruct (Nat.eqb (xid y) (xid x)); [rewrite orb_true_r | rewrite orb_false_r]; reflexivity. }
-    assert (Hval : forall y, xid y <> xid x -> entry st1 y = entry st y).
-    { intros y Hy. unfold entry, val, st1. cbn [tgt store bump].
-      apply Nat.eqb_neq in Hy. rewrite Hy. reflexivity. }
-    assert (Hvx : entry st1 x = (xpos x, t)).
-    { unfold entry, val, st1. cbn [tgt store bump]. rewrite Nat.eqb_refl. reflexivity. }
-    clearbody st1.
-    pose proof (slots_sorted s) as Hsort. pose proof ids_unique as ND.
-    revert Hx Hsort ND Hres. generalize all as l. induction l as [|y l IH]; intros Hx Hsort ND Hres; [destruct Hx|].
-    cbn [map] in ND. inversion ND as [|? ? Hny ND']; subst.
-    destruct Hx as [Hx|Hx].
-    - (* y = x : not yet resolved, now resolved; everything after it in the slot lies further right *)
-      subst y. cbn [filter]. rewrite Hs. cbn [andb].
-      assert (Hrx : resolved st x = false) by (unfold resolved; rewrite Hn; reflexivity).
-      rewrite Hrx. rewrite (Hres x (or_introl eq_refl)), Nat.eqb_refl, orb_true_r. cbn [map]. rewrite Hvx.
-      assert (Hsame : forall z, In z l -> xid z <> xid x).
-      { intros z Hz E. apply Hny. rewrite <- E. apply in_map. exact Hz. }
-      assert (Hf : filter (fun z => (inslot s z && resolved st1 z)%bool) l = filter (fun z => (inslot s z && resolved st z)%bool) l).
-      { apply filter_ext_in. intros z Hz. rewrite (Hres z (or_intror Hz)).
-        pose proof (Hsame z Hz) as E. apply Nat.eqb_neq in E. rewrite E, orb_false_r. reflexivity. }
-      rewrite Hf.
-      assert (Hm : map (entry st1) (filter (fun z => (inslot s z && resolved st z)%bool) l)
-                   = map (entry st) (filter (fun z => (inslot s z && resolved st z)%bool) l)).
-      { apply map_ext_in. intros z Hz. apply filter_In in Hz as [Hz _]. apply Hval. apply Hsame. exact Hz. }
-      rewrite Hm. apply insert_front.
-      intros q v Hq. apply in_map_iff in Hq as [z [Ez Hz]]. inversion Ez; subst. apply filter_In in Hz as [Hz Hp].
-      apply andb_true_iff in Hp as [Hp _].
-      cbn [filter] in Hsort. rewrite Hs in Hsort. cbn [map] in Hsort.
-      apply StronglySorted_inv in Hsort as [_ Hall]. rewrite Forall_forall in Hall.
-      apply Hall. apply in_map. apply filter_In. split; assumption.
-    - (* x is further down *)
-      assert (Hyx : xid y <> xid x) by (intro E; apply Hny; rewrite E; apply in_map; exact Hx).
-      pose proof Hyx as Hyx'. apply Nat.eqb_neq in Hyx'.
-      cbn [filter]. rewrite (Hres y (or_introl eq_refl)), Hyx', orb_false_r.
-      assert (Hsort' : StronglySorted lt (map xpos (filter (inslot s) l))).
-      { cbn [filter] in Hsort. destruct (inslot s y); [cbn [map] in Hsort; apply StronglySorted_inv in Hsort as [H _]; exact H | exact Hsort]. }
-      assert (Hres' : forall z, In z l -> resolved st1 z = (resolved st z || Nat.eqb (xid z) (xid x))%bool).
-      { intros z Hz. apply Hres. right. exact Hz. }
-      destruct (inslot s y && resolved st y)%bool eqn:Hp.
-      + cbn [map insert_pos]. rewrite (Hval y Hyx). unfold entry at 1. cbn [insert_pos].
-        assert (Hlt : xpos y < xpos x).
-        { apply andb_true_iff in Hp as [Hp _]. cbn [filter] in Hsort. rewrite Hp in Hsort. cbn [map] in Hsort.
-          apply StronglySorted_inv in Hsort as [_ Hall]. rewrite Forall_forall in Hall.
-          apply Hall. apply in_map. apply filter_In. split; assumption. }
-        assert (Hnlt : Nat.ltb (xpos x) (xpos y) = false) by (apply Nat.ltb_ge; lia).
-        rewrite Hnlt. f_equal. apply IH; assumption.
-      + apply IH; assumption.
-  Qed.
-
-  (* a reference of another slot (or a scalar) leaves the list untouched *)
-  Lemma other_expected st x t s :
-    In x all -> tgt st (xid x) = None -> inslot s x = false ->
-    expected st s = expected (store x t (bump x st)) s.
-  Proof.
-    intros Hx Hn Hs. unfold expected.
-    assert (Hf : filter (fun z => (inslot s z && resolved (store x t (bump x st)) z)%bool) all
-                 = filter (fun z => (inslot s z && resolved st z)%bool) all).
-    { apply filter_ext_in. intros z Hz. unfold resolved. cbn [tgt store bump].
-      destruct (Nat.eqb (xid z) (xid x)) eqn:E; [|reflexivity].
-      apply Nat.eqb_eq in E. rewrite (same_id_same_ref z x Hz Hx E), Hs. reflexivity. }
-    rewrite Hf. apply map_ext_in. intros z Hz. apply filter_In in Hz as [Hz Hp].
-    unfold entry, val. cbn [tgt store bump].
-    destruct (Nat.eqb (xid z) (xid x)) eqn:E; [|reflexivity].
-    apply Nat.eqb_eq in E. rewrite (same_id_same_ref z x Hz Hx E), Hs in Hp. discriminate.
-  Qed.
-
-  Lemma Inv_store st x t pend :
-    Inv st (x :: pend) -> ~ In x pend -> Inv (store x t (bump x st)) pend.
-  Proof.
-    intros [I1 [I2 I3]] Hnin.
-    destruct (I2 x (or_introl eq_refl)) as [Hx Hn].
-    split; [|split].
-    - intro s. cbn [lists store bump]. rewrite I1.
-      destruct (Nat.eqb s (xslot x) && xmany x)%bool eqn:E.
-      + rewrite store_list_eq. apply insert_expected; try assumption. unfold inslot.
-        apply andb_true_iff in E as [E1 E2]. apply Nat.eqb_eq in E1. subst s. rewrite Nat.eqb_refl, E2. reflexivity.
-      + apply other_expected; try assumption. unfold inslot. rewrite Nat.eqb_sym. exact E.
-    - intros y Hy. destruct (I2 y (or_intror Hy)) as [Hya Hyn]. split; [exact Hya|].
-      cbn [tgt store bump]. destruct (Nat.eqb (xid y) (xid x)) eqn:E; [|exact Hyn].
-      apply Nat.eqb_eq in E. exfalso. apply Hnin. rewrite <- (same_id_same_ref y x Hya Hx E). exact Hy.
-    - intros y Hya Hyn. cbn [tgt store bump] in Hyn.
-      destruct (Nat.eqb (xid y) (xid x)) eqn:E; [discriminate|].
-      destruct (I3 y Hya Hyn) as [Hy|Hy]; [|exact Hy].
-      subst y. rewrite Nat.eqb_refl in E. discriminate.
-  Qed.
-
-  Lemma Inv_bump st x pend : Inv st pend -> Inv (bump x st) pend.
-  Proof. intros [I1 [I2 I3]]. split; [|split]; assumption. Qed.
-
-  Lemma step_Inv ans : forall pend st others st' d c,
-    cstep ans pend st = Some (st', d, c) -> NoDup (pend ++ others) -> Inv st (pend ++ others) -> Inv st' (d ++ others).
-  Proof.
-    induction pend as [|x r IH]; intros st others st' d c H ND HI; cbn [cstep] in H.
-    - inversion H; subst. exact HI.
-    - cbn [app] in ND. inversion ND as [|? ? Hnin ND']; subst.
-      destruct (ans x st) as [t| |]; [| |discriminate].
-      + destruct (cstep ans r _) as [[[st1 d1] c1]|] eqn:E; [|discriminate]. inversion H; subst.
-        apply (IH _ others _ _ _ E ND'). apply Inv_store; assumption.
-      + destruct (cstep ans r _) as [[[st1 d1] c1]|] eqn:E; [|discriminate]. inversion H; subst.
-        pose proof (IH (bump x st) (x :: others) _ _ _ E) as IH'.
-        assert (ND3 : NoDup (r ++ x :: others)).
-        { apply (Permutation_NoDup (l := x :: r ++ others)); [|exact ND].
-          apply Permutation_middle. }
-        specialize (IH' ND3).
-        assert (HI' : Inv (bump x st) (r ++ x :: others)).
-        { apply Inv_bump. apply (Inv_perm st ((x :: r) ++ others)); [|exact HI].
-          intro y. cbn [app]. rewrite !in_app_iff. cbn [In]. rewrite in_app_iff. tauto. }
-        specialize (IH' HI').
-        apply (Inv_perm _ (d1 ++ x :: others)); [|exact IH'].
-        intro y. cbn [app]. rewrite !in_app_iff. cbn [In]. rewrite in_app_iff. tauto.
-  Qed.
-
-  Lemma step_NoDup ans : forall pend st others st' d c,
-    cstep ans pend st = Some (st', d, c) -> NoDup (pend ++ others) -> NoDup (d ++ others).
-  Proof.
-    clear. induction pend as [|x r IH]; intros st others st' d c H ND; cbn [cstep] in H.
-    - inversion H; subst. exact ND.
-    - cbn [app] in ND. inversion ND as [|? ? Hnin ND']; subst.
-      destruct (ans x st) as [t| |]; [| |discriminate].
-      + destruct (cstep ans r _) as [[[st1 d1] c1]|] eqn:E; [|discriminate]. inversion H; subst.
-        apply (IH _ _ _ _ _ E ND').
-      + destruct (cstep ans r _) as [[[st1 d1] c1]|] eqn:E; [|discriminate]. inversion H; subst.
-        cbn [app]. constructor.
-        * intro Hin. apply Hnin. apply in_app_iff in Hin as [Hin|Hin]; apply in_app_iff; [left|right; exact Hin].
-          destruct (step_counts _ _ _ _ _ _ E) as [_ I]. apply I. exact Hin.
-        * apply (IH _ _ _ _ _ E ND').
-  Qed.
-
-  Lemma round_Inv ans : forall models st others st' models' c,
-    cround ans models st = Some (st', models', c) ->
-    NoDup (concat models ++ others) -> Inv st (concat models ++ others) ->
-    Inv st' (concat models' ++ others) /\ NoDup (concat models' ++ others).
-  Proof.
-    induction models as [|m ms IH]; intros st others st' models' c H ND HI; cbn [cround] in H.
-    - inversion H; subst. split; assumption.
-    - destruct (cstep ans m st) as [[[st1 d] c1]|] eqn:E1; [|discriminate].
-      destruct (cround ans ms st1) as [[[st2 ds] c2]|] eqn:E2; [|discriminate]. inversion H; subst.
-      cbn [concat] in *. rewrite <- app_assoc in ND, HI.
-      pose proof (step_Inv ans m st (concat ms ++ others) _ _ _ E1 ND HI) as HI1.
-      pose proof (step_NoDup ans m st (concat ms ++ others) _ _ _ E1 ND) as ND1.
-      assert (P1 : Permutation (d ++ concat ms ++ others) (concat ms ++ d ++ others)).
-      { rewrite !app_assoc. apply Permutation_app_tail. apply Permutation_app_comm. }
-      destruct (IH st1 (d ++ others) _ _ _ E2) as [HI2 ND2].
-      + apply (Permutation_NoDup P1 ND1).
-      + apply (Inv_perm st1 (d ++ concat ms ++ others)); [|exact HI1].
-        intro y. split; apply Permutation_in; [exact P1 | apply Permutation_sym; exact P1].
-      + assert (P2 : Permutation (concat ds ++ d ++ others) ((d ++ concat ds) ++ others)).
-        { rewrite !app_assoc. apply Permutation_app_tail. apply Permutation_app_comm. }
-        split.
-        * apply (Inv_perm st' (concat ds ++ d ++ others)); [|exact HI2].
-          intro y. split; apply Permutation_in; [exact P2 | apply Permutation_sym; exact P2].
-        * apply (Permutation_NoDup P2 ND2).
-  Qed.
-
-  Lemma loop_Inv ans : forall fuel models st,
-    NoDup (concat models) -> Inv st (concat models) ->
-    match cloop fuel ans models st with
-    | Ok st' => Inv st' []
-    | Unresolvable lf st' => Inv st' (concat lf) /\ concat lf <> []
-    | _ => True
-    end.
-  Proof.
-    induction fuel as [|f IH]; intros models st ND HI; cbn [cloop]; [exact I|].
-    destruct (cround ans models st) as [[[st' models'] c]|] eqn:E; [|exact I].
-    destruct (round_Inv ans models st [] _ _ _ E) as [HI' ND']; rewrite ?app_nil_r; try assumption.
-    rewrite app_nil_r in HI', ND'.
-    destruct (Nat.ltb 0 (total models')) eqn:E1.
-    - destruct (Nat.ltb 0 c) eqn:E2; cbn [andb].
-      + apply IH; assumption.
-      + split; [exact HI'|]. apply Nat.ltb_lt in E1. unfold total in E1. intro Hnil. rewrite Hnil in E1. cbn in E1. lia.
-    - cbn [andb]. apply Nat.ltb_ge in E1. unfold total in E1.
-      destruct (concat models') eqn:Ec; [exact HI' | cbn in E1; lia].
-  Qed.
-
-  Lemma filter_init (l : list xref) s : filter (fun x => (inslot s x && resolved init x)%bool) l = [].
-  Proof.
-    clear. induction l as [|a l IHl]; [reflexivity|]. cbn [filter]. unfold resolved at 1. cbn [tgt init is_some].
-    rewrite andb_false_r. exact IHl.
-  Qed.
-
-  Lemma Inv_init models : concat models = all -> Inv init (concat models).
-  Proof.
-    intro E. rewrite E. split; [|split].
-    - intro s. unfold expected. rewrite filter_init. reflexivity.
-    - intros x Hx. split; [exact Hx | reflexivity].
-    - intros x Hx _. exact Hx.
-  Qed.
-End Order.
-
-(* For every provider (every postponement schedule) a successful load leaves in each list
-   attribute exactly its references' targets, in the textual order of the references. *)
-Theorem corder_preserved : forall ans models st,
-  NoDup (map xid (concat models)) ->
-  (forall s, StronglySorted lt (map xpos (filter (inslot s) (concat models)))) ->
-  cload ans models = Ok st ->
-  (forall x, In x (concat models) -> tgt st (xid x) <> None) /\
-  (forall s, lists st s = map (entry st) (filter (inslot s) (concat models))).
+Lemma step_NoDup ans : forall pend st others st' d c,
+  cstep ans pend st = Some (st', d, c) -> NoDup (pend ++ others) -> NoDup (d ++ others).
 Proof.
-  intros ans models st ND Hs H.
-  pose proof (loop_Inv (concat models) ND Hs ans (S (total models)) models init) as L.
-  unfold cload in H. rewrite H in L.
-  destruct L as [I1 [I2 I3]]; [apply (NoDup_map_inv _ _ ND) | apply Inv_init; reflexivity |].
-  assert (Hall : forall x, In x (concat models) -> tgt st (xid x) <> None).
-  { intros x Hx Hn. apply (I3 x Hx Hn). }
-  split; [exact Hall|].
-  intro s. rewrite I1. unfold expected. f_equal. apply filter_ext_in. intros x Hx.
-  unfold resolved. specialize (Hall x Hx). destruct (tgt st (xid x)); [|congruence]. cbn. apply andb_true_r.
+  induction pend as [|x r IH]; intros st others st' d c H ND; cbn [cstep] in H.
+  - inversion H; subst. exact ND.
+  - cbn [app] in ND. inversion ND as [|? ? Hnin ND']; subst.
+    destruct (ans x st) as [t| |]; [| |discriminate].
+    + destruct (cstep ans r _) as [[[st1 d1] c1]|] eqn:E; [|discriminate]. inversion H; subst.
+      apply (IH _ _ _ _ _ E ND').
+    + destruct (cstep ans r _) as [[[st1 d1] c1]|] eqn:E; [|discriminate]. inversion H; subst.
+      cbn [app]. constructor.
+      * intro Hin. apply Hnin. apply in_app_iff in Hin as [Hin|Hin]; apply in_app_iff; [left|right; exact Hin].
+        destruct (step_counts _ _ _ _ _ _ E) as [_ I]. apply I. exact Hin.
+      * apply (IH _ _ _ _ _ E ND').
 Qed.
 
 (* ================================================================ C09: providers given by a monotone readiness
@@ -750,13 +489,6 @@ End Table.
 Theorem load_terminates ans models : load ans models <> OutOfFuel.
 Proof. rewrite load_eq. apply cload_terminates. Qed.
 
-Theorem order_preserved : forall ans models st,
-  NoDup (map xid (concat models)) ->
-  (forall s, StronglySorted lt (map xpos (filter (inslot s) (concat models)))) ->
-  load ans models = Ok st ->
-  (forall x, In x (concat models) -> tgt st (xid x) <> None) /\
-  (forall s, lists st s = map (entry st) (filter (inslot s) (concat models))).
-Proof. intros ans models st. rewrite load_eq. apply corder_preserved. Qed.
 
 Theorem monotone_success_iff : forall ready, monotone ready -> forall models, NoDup (map xid (concat models)) ->
   ((exists st, load (mono_ans ready) models = Ok st) <-> forall x, In x (concat models) -> mreach (concat models) ready (xid x)).
@@ -819,6 +551,19 @@ Theorem order_independent : forall m1 m2,
      forall x, In x (concat m1) -> tgt st1 (xid x) = tgt st2 (xid x)).
 Proof. exact (monotone_order_independent dep_ready dep_ready_mono). Qed.
 
+Lemma table_is_monotone_instance : monotone dep_ready /\ dep_ans = mono_ans dep_ready /\
+  forall all i, reach all i <-> mreach all dep_ready i.
+Proof. split; [exact dep_ready_mono | split; [reflexivity | exact reach_mreach]]. Qed.
+
+(* a monotone readiness predicate that is not a dependency table: "waits for ANY ONE of" *)
+Definition any_ready (x : xref) (S : nat -> bool) : bool :=
+  match xdeps x with [] => true | ds => existsb S ds end.
+Lemma any_ready_monotone : monotone any_ready.
+Proof.
+  intros x S S' Hsub H. unfold any_ready in *. destruct (xdeps x) as [|d ds]; [reflexivity|].
+  apply existsb_exists in H as [e [H1 H2]]. apply existsb_exists. exists e. split; [exact H1 | apply Hsub; exact H2].
+Qed.
+
 (* ================================================================ providers that ask the resolver (snapshot view):
    termination for every such provider *)
 Lemma qround_counts ans : forall models st settled st' pends dels c s',
@@ -845,15 +590,294 @@ Qed.
 Theorem qload_terminates ans models : qload ans models <> OutOfFuel.
 Proof. unfold qload. apply qloop_fuel. lia. Qed.
 
-Lemma table_is_monotone_instance : monotone dep_ready /\ dep_ans = mono_ans dep_ready /\
-  forall all i, reach all i <-> mreach all dep_ready i.
-Proof. split; [exact dep_ready_mono | split; [reflexivity | exact reach_mreach]]. Qed.
 
-(* a monotone readiness predicate that is not a dependency table: "waits for ANY ONE of" *)
-Definition any_ready (x : xref) (S : nat -> bool) : bool :=
-  match xdeps x with [] => true | ds => existsb S ds end.
-Lemma any_ready_monotone : monotone any_ready.
+(* ================================================================ C09: providers that read the resolvers' pending
+   snapshot reach the same least fixpoint.  At every step boundary the snapshot is exactly the set of
+   resolved references ([agrees]); during a step it lags behind, which can only delay a resolution. *)
+Lemma cstep_frame ans : forall pend st st' d c,
+  cstep ans pend st = Some (st', d, c) -> forall i, ~ In i (map xid pend) -> tgt st' i = tgt st i.
 Proof.
-  intros x S S' Hsub H. unfold any_ready in *. destruct (xdeps x) as [|d ds]; [reflexivity|].
-  apply existsb_exists in H as [e [H1 H2]]. apply existsb_exists. exists e. split; [exact H1 | apply Hsub; exact H2].
+  induction pend as [|x r IH]; intros st st' d c H i Hi; cbn [cstep] in H.
+  - inversion H; subst. reflexivity.
+  - cbn [map In] in Hi. destruct (ans x st) as [t| |]; [| |discriminate].
+    + destruct (cstep ans r _) as [[[st1 d1] c1]|] eqn:E; [|discriminate]. inversion H; subst.
+      rewrite (IH _ _ _ _ E i); [|tauto]. cbn [tgt store bump].
+      destruct (Nat.eqb i (xid x)) eqn:Eq; [|reflexivity]. apply Nat.eqb_eq in Eq. exfalso. apply Hi. left. congruence.
+    + destruct (cstep ans r _) as [[[st1 d1] c1]|] eqn:E; [|discriminate]. inversion H; subst.
+      rewrite (IH _ _ _ _ E i); [|tauto]. reflexivity.
+Qed.
+
+Definition agrees (s : nat -> bool) (st : state) : Prop := forall i, s i = is_some (tgt st i).
+
+Lemma commit_agrees ans m st st1 d c s :
+  cstep ans m st = Some (st1, d, c) -> agrees s st -> agrees (commit m st1 s) st1.
+Proof.
+  intros E A i. unfold commit. destruct (existsb (fun x => Nat.eqb i (xid x)) m) eqn:Ex; [reflexivity|].
+  rewrite A, (cstep_frame _ _ _ _ _ _ E i); [reflexivity|].
+  intro Hin. apply in_map_iff in Hin as [x [Hx1 Hx2]].
+  assert (Ht : existsb (fun x => Nat.eqb i (xid x)) m = true).
+  { apply existsb_exists. exists x. split; [exact Hx2 | subst i; apply Nat.eqb_refl]. }
+  congruence.
+Qed.
+
+Section Snap.
+  Variable all : list xref.
+  Hypothesis ids_unique : NoDup (map xid all).
+  Variable ready : xref -> (nat -> bool) -> bool.
+  Hypothesis ready_mono : monotone ready.
+
+  Lemma smono_cases s x st :
+    (smono_ans ready s x st = Resolved (xtgt x) /\ ready x s = true) \/
+    (smono_ans ready s x st = Postponed /\ ready x s = false).
+  Proof. unfold smono_ans. destruct (ready x s); [left | right]; split; reflexivity. Qed.
+
+  Lemma ready_ext x (s s' : nat -> bool) : (forall i, s i = s' i) -> ready x s = false -> ready x s' = false.
+  Proof.
+    intros E H. destruct (ready x s') eqn:R; [|reflexivity]. rewrite <- H. symmetry.
+    apply (ready_mono x s'); [|exact R]. intros i Hi. rewrite E. exact Hi.
+  Qed.
+
+  (* one step: the snapshot s is fixed *)
+  Lemma sstep_dep s (Hs : forall i, s i = true -> mreach all ready i) : forall pend st others st' d c,
+    cstep (smono_ans ready s) pend st = Some (st', d, c) -> NoDup (pend ++ others) ->
+    Pend all st (pend ++ others) -> Sound all ready st ->
+    Pend all st' (d ++ others) /\ Sound all ready st'.
+  Proof.
+    induction pend as [|x r IH]; intros st others st' d c H ND HP HS; cbn [cstep] in H.
+    - inversion H; subst. split; assumption.
+    - cbn [app] in ND. inversion ND as [|? ? Hnin ND']; subst.
+      destruct HP as [I2 I3]. destruct (I2 x (or_introl eq_refl)) as [Hx Hn].
+      destruct (smono_cases s x st) as [[Ea Hready]|[Ea Hst]]; rewrite Ea in H.
+      + destruct (cstep (smono_ans ready s) r _) as [[[st1 d1] c1]|] eqn:E; [|discriminate]. inversion H; subst.
+        apply (IH _ others _ _ _ E ND').
+        * split.
+          -- intros y Hy. destruct (I2 y (or_intror Hy)) as [Hya Hyn]. split; [exact Hya|].
+             cbn [tgt store bump]. destruct (Nat.eqb (xid y) (xid x)) eqn:Eq; [|exact Hyn].
+             apply Nat.eqb_eq in Eq. exfalso. apply Hnin. rewrite <- (same_id_same_ref all ids_unique y x Hya Hx Eq). exact Hy.
+          -- intros y Hya Hyn. cbn [tgt store bump] in Hyn.
+             destruct (Nat.eqb (xid y) (xid x)) eqn:Eq; [discriminate|].
+             destruct (I3 y Hya Hyn) as [Hy|Hy]; [|exact Hy]. subst y. rewrite Nat.eqb_refl in Eq. discriminate.
+        * intros i t Hi. cbn [tgt store bump] in Hi. destruct (Nat.eqb i (xid x)) eqn:Eq.
+          -- apply Nat.eqb_eq in Eq. subst i. inversion Hi; subst t. split.
+             ++ apply (mreach_intro all ready x s); assumption.
+             ++ exists x. repeat split; assumption.
+          -- apply HS. exact Hi.
+      + destruct (cstep (smono_ans ready s) r _) as [[[st1 d1] c1]|] eqn:E; [|discriminate]. inversion H; subst.
+        assert (ND3 : NoDup (r ++ x :: others)).
+        { apply (Permutation_NoDup (l := x :: r ++ others)); [|exact ND]. apply Permutation_middle. }
+        destruct (IH (bump x st) (x :: others) _ _ _ E ND3) as [HP' HS'].
+        * apply (Pend_perm all st ((x :: r) ++ others)); [|split; assumption].
+          intro y. cbn [app]. rewrite !in_app_iff. cbn [In]. rewrite in_app_iff. tauto.
+        * exact HS.
+        * split; [|exact HS'].
+          apply (Pend_perm all _ (d1 ++ x :: others)); [|exact HP'].
+          intro y. cbn [app]. rewrite !in_app_iff. cbn [In]. rewrite in_app_iff. tauto.
+  Qed.
+
+  Lemma sstep_some s : forall pend st, cstep (smono_ans ready s) pend st <> None.
+  Proof.
+    induction pend as [|x r IH]; intro st; cbn [cstep]; [discriminate|].
+    destruct (smono_cases s x st) as [[Ea _]|[Ea _]]; rewrite Ea.
+    - specialize (IH (store x (xtgt x) (bump x st))). destruct (cstep (smono_ans ready s) r _) as [[[? ?] ?]|]; [discriminate | congruence].
+    - specialize (IH (bump x st)). destruct (cstep (smono_ans ready s) r _) as [[[? ?] ?]|]; [discriminate | congruence].
+  Qed.
+
+  Lemma sstep_zero s : forall pend st st' d,
+    cstep (smono_ans ready s) pend st = Some (st', d, 0) ->
+    d = pend /\ (forall i, tgt st' i = tgt st i) /\ (forall x, In x pend -> ready x s = false).
+  Proof.
+    induction pend as [|x r IH]; intros st st' d H; cbn [cstep] in H.
+    - inversion H; subst. repeat split; intros ? [].
+    - destruct (smono_cases s x st) as [[Ea _]|[Ea Hst]]; rewrite Ea in H.
+      + destruct (cstep (smono_ans ready s) r _) as [[[st1 d1] c1]|]; [|discriminate]. inversion H.
+      + destruct (cstep (smono_ans ready s) r _) as [[[st1 d1] c1]|] eqn:E; [|discriminate]. inversion H; subst.
+        destruct (IH _ _ _ E) as [Hd [Ht Hs]]. subst d1. split; [reflexivity|]. split.
+        * intro i. rewrite Ht. reflexivity.
+        * intros y [Hy|Hy]; [subst y; exact Hst | exact (Hs y Hy)].
+  Qed.
+
+  Lemma agrees_sound s st : agrees s st -> Sound all ready st -> forall i, s i = true -> mreach all ready i.
+  Proof.
+    intros A HS i Hi. rewrite A in Hi. destruct (tgt st i) as [t|] eqn:Et; [|discriminate]. apply (HS i t Et).
+  Qed.
+
+  Lemma qround_dep : forall models st s others st' pends dels c s',
+    qround (smono_ans ready) models st s = Some (st', pends, dels, c, s') ->
+    NoDup (concat models ++ others) -> Pend all st (concat models ++ others) -> Sound all ready st -> agrees s st ->
+    Pend all st' (concat pends ++ others) /\ NoDup (concat pends ++ others) /\ Sound all ready st' /\ agrees s' st' /\ dels = pends.
+  Proof.
+    induction models as [|m ms IH]; intros st s others st' pends dels c s' H ND HP HS A; cbn [qround] in H.
+    - inversion H; subst. split; [exact HP | split; [exact ND | split; [exact HS | split; [exact A | reflexivity]]]].
+    - rewrite step_eq in H. destruct (cstep (smono_ans ready s) m st) as [[[st1 d] c1]|] eqn:E1; cbn [lift_step] in H; [|discriminate].
+      destruct (qround (smono_ans ready) ms st1 _) as [[[[[st2 nps] ds] c2] s2]|] eqn:E2; [|discriminate].
+      injection H as Hst Hp Hd Hc Hs'; subst st' pends dels c s'.
+      cbn [concat] in *. rewrite <- app_assoc in ND, HP.
+      destruct (sstep_dep s (agrees_sound s st A HS) m st (concat ms ++ others) _ _ _ E1 ND HP HS) as [HP1 HS1].
+      pose proof (step_NoDup (smono_ans ready s) m st (concat ms ++ others) _ _ _ E1 ND) as ND1.
+      pose proof (commit_agrees _ _ _ _ _ _ s E1 A) as A1.
+      assert (P1 : Permutation (d ++ concat ms ++ others) (concat ms ++ d ++ others)).
+      { rewrite !app_assoc. apply Permutation_app_tail. apply Permutation_app_comm. }
+      destruct (IH st1 _ (d ++ others) _ _ _ _ _ E2) as [HP2 [ND2 [HS2 [A2 Hds]]]].
+      + apply (Permutation_NoDup P1 ND1).
+      + apply (Pend_perm all st1 (d ++ concat ms ++ others)); [|exact HP1].
+        intro y. split; apply Permutation_in; [exact P1 | apply Permutation_sym; exact P1].
+      + exact HS1.
+      + exact A1.
+      + subst ds.
+        assert (P2 : Permutation (concat nps ++ d ++ others) ((d ++ concat nps) ++ others)).
+        { rewrite !app_assoc. apply Permutation_app_tail. apply Permutation_app_comm. }
+        split; [|split; [|split; [exact HS2 | split; [exact A2 | reflexivity]]]].
+        * apply (Pend_perm all st2 (concat nps ++ d ++ others)); [|exact HP2].
+          intro y. split; apply Permutation_in; [exact P2 | apply Permutation_sym; exact P2].
+        * apply (Permutation_NoDup P2 ND2).
+  Qed.
+
+  Lemma qround_some : forall models st s, qround (smono_ans ready) models st s <> None.
+  Proof.
+    induction models as [|m ms IH]; intros st s; cbn [qround]; [discriminate|].
+    rewrite step_eq. destruct (cstep (smono_ans ready s) m st) as [[[st1 d] c1]|] eqn:E1; cbn [lift_step]; [|exfalso; exact (sstep_some _ _ _ E1)].
+    specialize (IH st1 (commit m st1 s)). destruct (qround (smono_ans ready) ms st1 _) as [[[[[? ?] ?] ?] ?]|]; [discriminate | congruence].
+  Qed.
+
+  Lemma qround_zero : forall models st s st' pends dels s',
+    qround (smono_ans ready) models st s = Some (st', pends, dels, 0, s') -> agrees s st ->
+    pends = models /\ (forall i, tgt st' i = tgt st i) /\ (forall x, In x (concat models) -> ready x s = false).
+  Proof.
+    induction models as [|m ms IH]; intros st s st' pends dels s' H A; cbn [qround] in H.
+    - inversion H; subst. repeat split; intros ? [].
+    - rewrite step_eq in H. destruct (cstep (smono_ans ready s) m st) as [[[st1 d] c1]|] eqn:E1; cbn [lift_step] in H; [|discriminate].
+      destruct (qround (smono_ans ready) ms st1 _) as [[[[[st2 nps] ds] c2] s2]|] eqn:E2; [|discriminate].
+      injection H as Hst Hp Hd Hc Hs'; subst st' pends dels s'.
+      assert (c1 = 0 /\ c2 = 0) as [-> ->] by lia.
+      destruct (sstep_zero _ _ _ _ _ E1) as [Hd [Ht Hs]]. subst d.
+      pose proof (commit_agrees _ _ _ _ _ _ s E1 A) as A1.
+      destruct (IH _ _ _ _ _ _ E2 A1) as [Hnps [Ht2 Hs2]]. subst nps. split; [reflexivity|]. split.
+      + intro i. rewrite Ht2, Ht. reflexivity.
+      + intros x Hx. cbn [concat] in Hx. apply in_app_iff in Hx as [Hx|Hx]; [apply Hs; exact Hx|].
+        apply (ready_ext x (commit m st1 s)); [|apply Hs2; exact Hx].
+        intro i. rewrite (A1 i), (A i), Ht. reflexivity.
+  Qed.
+
+  Lemma qloop_dep : forall fuel models st s,
+    NoDup (concat models) -> Pend all st (concat models) -> Sound all ready st -> agrees s st ->
+    match qloop fuel (smono_ans ready) models st s with
+    | Ok st' => Pend all st' [] /\ Sound all ready st'
+    | Unresolvable lf st' => Pend all st' (concat lf) /\ Sound all ready st' /\ concat lf <> [] /\
+                             (forall x, In x (concat lf) -> stuck ready st' x)
+    | UnknownObject => False
+    | OutOfFuel => True
+    end.
+  Proof.
+    induction fuel as [|f IH]; intros models st s ND HP HS A; cbn [qloop]; [exact I|].
+    destruct (qround (smono_ans ready) models st s) as [[[[[st' pends] dels] c] s']|] eqn:E; [|exact (qround_some _ _ _ E)].
+    destruct (qround_dep models st s [] _ _ _ _ _ E) as [HP' [ND' [HS' [A' Hd]]]]; rewrite ?app_nil_r; try assumption.
+    rewrite app_nil_r in HP', ND'. subst dels. rewrite cond_eq, err_eq.
+    destruct (Nat.ltb 0 (total pends)) eqn:E1.
+    - destruct (Nat.ltb 0 c) eqn:E2; cbn [andb].
+      + apply IH; assumption.
+      + apply Nat.ltb_ge in E2. assert (c = 0) by lia. subst c.
+        destruct (qround_zero _ _ _ _ _ _ _ E A) as [Hm [Ht Hs]]. subst pends.
+        split; [exact HP'|]. split; [exact HS'|]. split.
+        * apply Nat.ltb_lt in E1. unfold total in E1. intro Hnil. rewrite Hnil in E1. cbn in E1. lia.
+        * intros x Hx. unfold stuck. apply (ready_ext x s); [|apply Hs; exact Hx].
+          intro i. unfold resolved_set. rewrite (A i), Ht. reflexivity.
+    - cbn [andb]. apply Nat.ltb_ge in E1. unfold total in E1.
+      destruct (concat pends) eqn:Ec; [split; assumption | cbn in E1; lia].
+  Qed.
+End Snap.
+
+Section SnapThm.
+  Variable ready : xref -> (nat -> bool) -> bool.
+  Hypothesis ready_mono : monotone ready.
+
+  Lemma snap_loop models (ND : NoDup (map xid (concat models))) :
+    match qload (smono_ans ready) models with
+    | Ok st' => Pend (concat models) st' [] /\ Sound (concat models) ready st'
+    | Unresolvable lf st' => Pend (concat models) st' (concat lf) /\ Sound (concat models) ready st' /\ concat lf <> [] /\
+                             (forall x, In x (concat lf) -> stuck ready st' x)
+    | UnknownObject => False
+    | OutOfFuel => True
+    end.
+  Proof.
+    apply (qloop_dep (concat models) ND ready ready_mono (S (total models)) models init (fun _ => false)
+             (NoDup_map_inv _ _ ND) (Pend_init models) (Sound_init _ _)).
+    intro i. reflexivity.
+  Qed.
+
+  Theorem snap_ok : forall models st, NoDup (map xid (concat models)) ->
+    qload (smono_ans ready) models = Ok st ->
+    forall x, In x (concat models) -> mreach (concat models) ready (xid x) /\ tgt st (xid x) = Some (xtgt x).
+  Proof.
+    intros models st ND H x Hx. pose proof (snap_loop models ND) as L. rewrite H in L. destruct L as [[I2 I3] HS].
+    destruct (tgt st (xid x)) as [t|] eqn:Et; [|destruct (I3 x Hx Et)].
+    destruct (HS _ _ Et) as [Hr [y [Hy [Eid Etg]]]]. split; [exact Hr|].
+    rewrite (same_id_same_ref _ ND y x Hy Hx Eid) in Etg. subst t. reflexivity.
+  Qed.
+
+  Theorem snap_fail : forall models lf st, NoDup (map xid (concat models)) ->
+    qload (smono_ans ready) models = Unresolvable lf st ->
+    concat lf <> [] /\
+    forall x, In x (concat lf) <-> (In x (concat models) /\ ~ mreach (concat models) ready (xid x)).
+  Proof.
+    intros models lf st ND H. pose proof (snap_loop models ND) as L. rewrite H in L. destruct L as [HP [HS [Hne Hst]]].
+    split; [exact Hne|]. intro x.
+    pose proof (complete _ ready ready_mono st (concat lf) HP Hst) as Hc. destruct HP as [I2 I3]. split.
+    - intro Hx. destruct (I2 x Hx) as [Ha Hn]. split; [exact Ha|]. intro Hr. exact (Hc _ Hr Hn).
+    - intros [Ha Hnr]. apply I3; [exact Ha|]. destruct (tgt st (xid x)) as [t|] eqn:Et; [|reflexivity].
+      exfalso. apply Hnr. apply (HS _ _ Et).
+  Qed.
+
+  Theorem snap_never_unknown : forall models, NoDup (map xid (concat models)) ->
+    qload (smono_ans ready) models <> UnknownObject.
+  Proof. intros models ND E. pose proof (snap_loop models ND) as L. rewrite E in L. exact L. Qed.
+
+  Theorem snap_success_iff : forall models, NoDup (map xid (concat models)) ->
+    ((exists st, qload (smono_ans ready) models = Ok st) <-> forall x, In x (concat models) -> mreach (concat models) ready (xid x)).
+  Proof.
+    intros models ND. split.
+    - intros [st H] x Hx. apply (snap_ok models st ND H x Hx).
+    - intro Hall. destruct (qload (smono_ans ready) models) as [st|lf st| |] eqn:E.
+      + exists st. reflexivity.
+      + exfalso. destruct (snap_fail models lf st ND E) as [Hne Hiff].
+        destruct (concat lf) as [|y l] eqn:El; [congruence|].
+        assert (Hy : In y (y :: l)) by (left; reflexivity).
+        apply Hiff in Hy as [Hya Hnr]. apply Hnr. apply Hall. exact Hya.
+      + exfalso. exact (snap_never_unknown models ND E).
+      + exfalso. exact (qload_terminates _ _ E).
+  Qed.
+
+  (* the snapshot view and the direct view of the resolved set give the same verdict and targets *)
+  Theorem snap_same_as_direct : forall models, NoDup (map xid (concat models)) ->
+    ((exists st, qload (smono_ans ready) models = Ok st) <-> (exists st, load (mono_ans ready) models = Ok st)) /\
+    (forall st1 st2, qload (smono_ans ready) models = Ok st1 -> load (mono_ans ready) models = Ok st2 ->
+       forall x, In x (concat models) -> tgt st1 (xid x) = tgt st2 (xid x)).
+  Proof.
+    intros models ND. split.
+    - rewrite (snap_success_iff models ND), (monotone_success_iff ready ready_mono models ND). reflexivity.
+    - intros st1 st2 H1 H2 x Hx.
+      destruct (snap_ok models st1 ND H1 x Hx) as [_ ->].
+      destruct (monotone_result ready ready_mono models st2 ND H2 x Hx) as [_ ->]. reflexivity.
+  Qed.
+End SnapThm.
+
+Theorem snap_order_independent ready : monotone ready -> forall m1 m2,
+  NoDup (map xid (concat m1)) -> NoDup (map xid (concat m2)) ->
+  (forall x, In x (concat m1) <-> In x (concat m2)) ->
+  ((exists st, qload (smono_ans ready) m1 = Ok st) <-> (exists st, qload (smono_ans ready) m2 = Ok st)) /\
+  (forall st1 st2, qload (smono_ans ready) m1 = Ok st1 -> qload (smono_ans ready) m2 = Ok st2 ->
+     forall x, In x (concat m1) -> tgt st1 (xid x) = tgt st2 (xid x)).
+Proof.
+  intros Hm m1 m2 N1 N2 E. split.
+  - rewrite (snap_success_iff ready Hm m1 N1), (snap_success_iff ready Hm m2 N2). split; intros H x Hx.
+    + apply (mreach_ext ready (concat m1)); [exact E|]. apply H. apply E. exact Hx.
+    + apply (mreach_ext ready (concat m2)); [intro y; symmetry; apply E|]. apply H. apply E. exact Hx.
+  - intros st1 st2 H1 H2 x Hx.
+    destruct (snap_ok ready Hm m1 st1 N1 H1 x Hx) as [_ ->].
+    destruct (snap_ok ready Hm m2 st2 N2 H2 x (proj1 (E x) Hx)) as [_ ->]. reflexivity.
+Qed.
+
+(* the harness's query-mode provider without delays is the table instance *)
+Lemma snap_ans_nodelay s x st : snap_ans (fun _ => 0) s x st = smono_ans dep_ready s x st.
+Proof.
+  unfold snap_ans, smono_ans, dep_ready. cbn [Nat.ltb Nat.leb]. destruct (xnever x); cbn [negb andb]; reflexivity.
 Qed.
